@@ -128,6 +128,15 @@ func tailDirs(thorough bool) ([]*tailDir, error) {
 	if err := add("D6-oldest-of-three", seg, script, 0); err != nil {
 		return nil, err
 	}
+	// D7: the 6-byte length prefix of the final record straddles the end of the first bufio window
+	// (one record of exactly 4093 bytes, so the next one starts at file offset 512+4096-3)
+	if err := add("D7-header-straddles-window", explore.BIGC, puts(kvShape{3, 4080}, kvShape{2, 1}, kvShape{1, 3}), -1); err != nil {
+		return nil, err
+	}
+	// D8: a key close to the 65535-byte limit (6 + key size overflows 16 bits) followed by small records
+	if err := add("D8-long-key", explore.BIGC, puts(kvShape{1, 1}, kvShape{65531, 2}, kvShape{2, 1}), -1); err != nil {
+		return nil, err
+	}
 	// D4: 70 KB record
 	if err := add("D4-70KB", explore.BIGC, puts(kvShape{3, 500}, kvShape{300, 70000}), -1); err != nil {
 		return nil, err
